@@ -212,7 +212,7 @@ def check_eval(s, cls, ctx, api):
     if exp[0] == 'v':
         ctx.mon('oracle:value')
         ok = act[0] == 'v' and isinstance(act[1], (int, float)) and not isinstance(act[1], bool) and \
-            (act[1] == exp[1] or (act[1] != act[1] and exp[1] != exp[1]) or abs(act[1] - exp[1]) <= 1e-9 * max(1.0, abs(exp[1])))
+            (act[1] == exp[1] or (act[1] != act[1] and exp[1] != exp[1]))      # bit for bit: the same IEEE operations in the same (left to right) order
         if not ok:
             ctx.violation('wrong-value', case, {'expected': exp[1], 'actual': list(act)})
         elif len(ctx.samples) < 3 and len(s) >= 5:
